@@ -345,7 +345,14 @@ def pushPfx (r : Ring) : Option (List Nat) → RingM Ring
     | .error e => .error e
     | .ok (r1, _) => .ok r1
 
-/-- the buffer calls of `RecvWindow::accept_incoming`; `none` = refused (ring untouched) -/
+/-- the buffer calls of `RecvWindow::accept_incoming`; `none` = refused (ring untouched).
+The Rust's `prefix_len + payload.len()` (`usize +`) is the plain `Nat` `+` here, not `uadd`: the
+prefix is 0 or 2 bytes and a Rust slice is at most `isize::MAX = 2^63 - 1` bytes long, so the sum
+cannot reach `USIZE = 2^64` (`BufOp.Wf` only says `payload.length < USIZE`; for lengths between
+`2^64 - 2` and `2^64`, which no slice has, the model answers "refused" where the arithmetic would
+overflow). `USIZE` is fixed at `2^64`: 32-bit targets (`usize = u32`) are not covered by the
+no-panic theorems of the ring (the BTP capacities, `2 * 3166`, are far below `2^32` too, but the
+theorems are not stated for that limit). -/
 def acceptBuf (r : Ring) (pfx : Option (List Nat)) (payload : List Nat) : RingM (Option Ring) :=
   match r.free with
   | .error e => .error e
